@@ -609,7 +609,7 @@ HARNESSES = {
         + [{"fixed": {"kind": "switched", "ns": n, "couple": True, "fstate": f}, "timeout": 1500} for n in (0, 2) for f in (1, 2)],
         "cover": ["reached", "not_reached", "deleted_target"],
         "bounds": {
-            "quick": "all argument-free/templated leaf paths of client_1; node ON/OFF; unmodified, misspelt at depth 3/4, truncated to 3..7 elements; all service and application states",
+            "quick": "all argument-free/templated leaf paths of client_1 (also of the firewall of the generated firewall-with-DMZ scenario and of a wireless router of the shipped wireless scenario); node ON/OFF (and the two transitional power states for the unmodified paths); unmodified, misspelt at depth 3/4, truncated to 3..7 elements; all service and application states",
             "thorough": "both topologies, all 4 power states, every mutation position and truncation length",
         },
     },
@@ -642,6 +642,6 @@ HARNESSES = {
         "thorough": [{"fixed": {"kind": k, "ns": n}, "timeout": 1200} for k in ("switched", "routed", "firewalled") for n in range(4)]
         + [{"fixed": {"kind": "switched", "ns": n, "couple": True, "fstate": f}, "timeout": 1200} for n in range(4) for f in (1, 2)],
         "cover": ["missing_target", "existing_target", "deleted_target"],
-        "bounds": "every entry of the generated action map (54 host actions incl. 7 naming missing components; +12 router/ACL actions in the routed topology) x 4 power states x all service/application states; with docs/a.txt deleted and with the folder docs deleted earlier in the episode (node ON in the quick tier)",
+        "bounds": "every entry of the generated action map (66 entries switched, 79 routed incl. router port / ACL actions, 94 with a firewall incl. overwriting ACL actions; 7 name missing components) x 4 power states x all service/application states; with docs/a.txt deleted and with the folder docs deleted earlier in the episode (node ON in the quick tier)",
     },
 }
